@@ -172,6 +172,40 @@ def native_error_witness(A, D, names):
     """real error models: reduced(x) == full(merge(x))"""
     import chi as real
     rng = np.random.default_rng(0)
+    # the failing step itself: the abstract state (parameters A fixed earlier) followed by fix_parameters(D), on real models with as many parameters
+    for cls in ('GaussianErrorModel', 'LogNormalErrorModel', 'ConstantAndMultiplicativeGaussianErrorModel'):
+        em = getattr(real, cls)()
+        full_names = em.get_parameter_names()
+        if len(full_names) != len(names):
+            continue
+        real_of = dict(zip(names, full_names))
+        try:
+            r = real.ReducedErrorModel(getattr(real, cls)())
+            old = {real_of[n_]: 0.6 + 0.1 * k_ for k_, n_ in enumerate(sorted(A))}
+            if old:
+                r.fix_parameters(dict(old))
+            new = {real_of[n_]: (None if v_ is None else 1.1 + 0.1 * k_) for k_, (n_, v_) in enumerate(sorted(D.items()))}
+            r.fix_parameters(dict(new))
+            net = dict(old)
+            for n_, v_ in new.items():
+                if v_ is None:
+                    net.pop(n_, None)
+                else:
+                    net[n_] = v_
+            free = [n_ for n_ in full_names if n_ not in net]
+            if list(r.get_parameter_names()) != free:
+                return {'what': '%s: after fixing %s and then fix_parameters(%s) the free parameters are %s, exact substitution leaves %s' % (cls, old, new, list(r.get_parameter_names()), free),
+                        'expected': free, 'observed': list(r.get_parameter_names())}
+            xv = {n_: 0.8 + 0.05 * k_ for k_, n_ in enumerate(free)}
+            vals = np.array([net.get(n_, xv.get(n_)) for n_ in full_names], dtype=float)
+            mo, ob = rng.uniform(1, 2, 4), rng.uniform(1, 2, 4)
+            a_ = r.compute_log_likelihood([xv[n_] for n_ in free], mo, ob) if True else None
+            b_ = em.compute_log_likelihood(vals, mo, ob)
+            if not np.isclose(a_, b_):
+                return {'what': '%s: after fixing %s and then fix_parameters(%s) the log-likelihood is %r, the full model at the substituted vector %s gives %r' % (cls, old, new, float(a_), vals.tolist(), float(b_)),
+                        'expected': float(b_), 'observed': float(a_)}
+        except Exception as ex:
+            return {'what': '%s: after fixing %s, fix_parameters(%s) / evaluation raises %r' % (cls, sorted(A), sorted(D.items()), ex), 'expected': 'values', 'observed': repr(ex)}
     for cls in ('GaussianErrorModel', 'ConstantAndMultiplicativeGaussianErrorModel', 'LogNormalErrorModel'):
         em = getattr(real, cls)()
         full_names = em.get_parameter_names()
